@@ -86,7 +86,14 @@ ProgramsVerdict(pf, ps) ==
 
 Verdicts(r) == {WeekVerdict(r.week), ConfigVerdict(r.config), XVerdict(r.x), ProgramsVerdict(r.pform, r.programs)}
 
+(* The size clause: "bodies over the size limit are refused".  r.len is the   *)
+(* number of body bytes the request carries.  Whether the sender announced   *)
+(* that number (r.declared: a Content-Length header) or not (a chunked body  *)
+(* of unknown length) makes no difference: the limit is on the bytes.        *)
 TooLarge(r) == r.len > Limit
+SizeClauseIgnoresDeclaration == \A d \in BOOLEAN, n \in {0, Limit - 1, Limit, Limit + 1, 3 * Limit} :
+    TooLarge([len |-> n, declared |-> d]) = (n > Limit)
+ASSUME SizeClauseIgnoresDeclaration
 
 (* ---- the decision --------------------------------------------------------- *)
 (* r.kind = "report": the body is one JSON object with the report fields     *)
